@@ -218,7 +218,15 @@ def r13_2(ctx):
     else:
         local = [a for a in asg if any(a is x for x in ast.walk(loop))]
         with_tmp = [w for w in ast.walk(loop) if isinstance(w, ast.With) and "NamedTemporaryFile" in ast.unparse(w.items[0].context_expr)]
-        if not local or not with_tmp or ast.unparse(local[0].value) != f"{ast.unparse(with_tmp[0].items[0].optional_vars)}.name":
+        # follow plain aliases inside the loop (`temp_file = tmp_name` ... `tmp_name = f.name`)
+        val = local[0].value if local else None
+        for _ in range(3):
+            if isinstance(val, ast.Name):
+                nxt = [a for a in ast.walk(loop) if isinstance(a, ast.Assign) and len(a.targets) == 1 and ast.unparse(a.targets[0]) == val.id]
+                if len(nxt) != 1:
+                    break
+                val = nxt[0].value
+        if not local or not with_tmp or val is None or ast.unparse(val) != f"{ast.unparse(with_tmp[0].items[0].optional_vars)}.name":
             msgs.append(f"`{tmpname}` is not the name of a NamedTemporaryFile created in the loop")
         if ast.unparse(u.args[0]) != tmpname or ast.unparse(u.args[1]) != ast.unparse(loop.target.elts[1] if isinstance(loop.target, ast.Tuple) else loop.target):
             msgs.append("update_if_changed is not called with (temporary, destination)")
